@@ -70,9 +70,10 @@ def value_doc(t, v, cfg):
         return [value_doc(t['of'], y, cfg) for y in v[1]]
     rt = runtime(t, v, cfg['poly'])
     fl = S.flat_fields(rt)
+    # (a member declared exc=True is outside the documents: not written by name, no slot in the positional list)
     if cfg['ca'] == 'list':
-        return [member_doc(f, x, cfg) for f, x in zip(fl, v[2])]
-    body = {f['n']: member_doc(f, x, cfg) for f, x in zip(fl, v[2]) if x != ['nil'] or f['min'] > 0}
+        return [member_doc(f, x, cfg) for f, x in zip(fl, v[2]) if not f.get('exc')]
+    body = {f['n']: member_doc(f, x, cfg) for f, x in zip(fl, v[2]) if (x != ['nil'] or f['min'] > 0) and not f.get('exc')}
     return body if cfg['iw'] else {rt['name']: body}
 
 
@@ -139,9 +140,11 @@ def value_read(t, x, cfg):
             return ['leaf', '?unknown-class:%s' % name]
     fl = S.flat_fields(rt)
     if isinstance(x, (list, tuple)):
-        if len(x) != len(fl):
+        inc = [f for f in fl if not f.get('exc')]
+        if len(x) != len(inc):
             return ['leaf', '?positional-length']
-        return ['obj', rt['name'], [member_read(f, y, cfg) for f, y in zip(fl, x)]]
+        got = {f['n']: member_read(f, y, cfg) for f, y in zip(inc, x)}
+        return ['obj', rt['name'], [got.get(f['n'], ['nil']) for f in fl]]
     if not isinstance(x, dict):
         return ['leaf', '?%s' % type(x).__name__]
     x = {(kk.decode('utf8') if isinstance(kk, bytes) else kk): vv for kk, vv in x.items()}
